@@ -45,6 +45,14 @@ func c07Enum(yield func(c07Case)) {
 			yield(c07Case{Kind: "op", Name: o.op, Pos: -1, Empty: e, Other: o.other})
 			yield(c07Case{Kind: "op", Name: o.op, Pos: 1, Empty: e, Other: o.other})
 		}
+		// every operator against every candidate partner (other types, other cardinalities, FHIR
+		// elements with and without a System value): the empty operand decides, whatever the other is
+		for _, op := range []string{"+", "-", "*", "/", "div", "mod", "=", "!=", "<", "<=", ">", ">="} {
+			for _, o := range c07RecvCands {
+				yield(c07Case{Kind: "op", Name: op, Pos: -1, Empty: e, Other: o})
+				yield(c07Case{Kind: "op", Name: op, Pos: 1, Empty: e, Other: o})
+			}
+		}
 		for _, o := range []string{"&"} {
 			yield(c07Case{Kind: "op", Name: o, Pos: -1, Empty: e, Other: "'x'"})
 			yield(c07Case{Kind: "op", Name: o, Pos: 1, Empty: e, Other: "'x'"})
